@@ -210,7 +210,8 @@ func appendTerms(left, right [][]*node) [][]*node {
 	var result [][]*node
 	for _, r := range right {
 		for _, l := range left {
-			tmp := l
+			// copy l: appending to l itself could reuse its spare capacity and overwrite an earlier result
+			tmp := append([]*node{}, l...)
 			tmp = append(tmp, r...)
 			result = append(result, tmp)
 		}
